@@ -465,8 +465,27 @@ func cosiCase(x *hx.Ctx, n, maskBits int) {
 		x.NoErr("NewMask(myKey)", err)
 		masks = append(masks, m.Mask())
 	}
+	Vsnap := make([]kyber.Point, len(Vs))
+	for i := range Vs {
+		Vsnap[i] = Vs[i].Clone()
+	}
+	msnap := make([][]byte, len(masks))
+	for i := range masks {
+		msnap[i] = append([]byte{}, masks[i]...)
+	}
 	aggV, aggMask, err := cosi.AggregateCommitments(s, Vs, masks)
 	x.NoErr("AggregateCommitments", err)
+	// the leader may aggregate again (a late commitment, another mask): the signers' commitments and masks are only read
+	inOK := true
+	for i := range Vs {
+		inOK = inOK && Vs[i].Equal(Vsnap[i]) && bytes.Equal(masks[i], msnap[i])
+	}
+	x.Require("AggregateCommitments leaves the signers' commitments and masks unchanged", inOK)
+	aggV2, aggMask2, err := cosi.AggregateCommitments(s, Vs, masks)
+	if x.NoErr("AggregateCommitments again", err) && len(on) > 0 {
+		x.ValidP("aggregating the same commitments again gives the same commitment", aggV2, aggV)
+		x.Require("aggregating the same masks again gives the same mask", bytes.Equal(aggMask2, aggMask))
+	}
 	mask, err := cosi.NewMask(s, pubs, nil)
 	x.NoErr("NewMask", err)
 	x.NoErr("SetMask", mask.SetMask(aggMask))
@@ -484,8 +503,20 @@ func cosiCase(x *hx.Ctx, n, maskBits int) {
 		x.NoErr("Response", err)
 		rs = append(rs, r)
 	}
+	rsnap := make([]kyber.Scalar, len(rs))
+	for i := range rs {
+		rsnap[i] = rs[i].Clone()
+	}
 	aggR, err := cosi.AggregateResponses(s, rs)
 	x.NoErr("AggregateResponses", err)
+	rOK := true
+	for i := range rs {
+		rOK = rOK && rs[i].Equal(rsnap[i])
+	}
+	x.Require("AggregateResponses leaves the signers' responses unchanged", rOK)
+	if aggR2, err := cosi.AggregateResponses(s, rs); err == nil && len(on) > 0 {
+		x.ValidS("aggregating the same responses again gives the same response", aggR2, aggR)
+	}
 	sig, err := cosi.Sign(s, aggV, aggR, mask)
 	x.NoErr("Sign", err)
 	pl, sl := s.PointLen(), s.ScalarLen()
